@@ -44,6 +44,7 @@ theorem inv_step {st : St} (h : Inv st) (o : Op) (hf : o.faultFree = true) : Inv
   | hmacVerify hd vm bm m => simp only [step, hmacVerify_state]; exact h
   | failPut k => cases hf
   | rawConfig d e => cases hf
+  | restoreRaw b f => cases hf
 
 theorem inv_run : ∀ (ops : List Op) (st : St), Inv st → FF ops → Inv (run st ops)
   | [], _, h, _ => h
@@ -257,6 +258,7 @@ theorem ext_step {st : St} (h : Inv st) (o : Op) (hk : o.keepsRing = true) : Ext
   | hmacVerify hd vm bm m => simp only [step, hmacVerify_state]; exact Ext.refl _
   | failPut k => cases hk
   | rawConfig d e => cases hk
+  | restoreRaw b f => cases hk
 
 theorem ext_run : ∀ (ops : List Op) (st : St), Inv st → KeepsRing ops → Ext st (run st ops)
   | [], st, _, _ => Ext.refl st
